@@ -83,6 +83,8 @@ FamL(n, kinds, sos) ==
       lg \in { <<r>> : r \in FirstRules(n) } \cup
              { <<r, q>> : <<r, q>> \in { p \in FirstRules(n) \X SecondRules(n) : p[1] # p[2] } } }
   \cup { [Base("ttf", n) EXCEPT !.gsub = "s", !.subs = << <<1, 2>> >>],
+         [Base("ttf", n) EXCEPT !.gsub = "s", !.subs = << <<3, 2>>, <<2, 1>> >>],     \* a coverage table with two glyphs
+         [Base("cff", n) EXCEPT !.gsub = "ls", !.subs = << <<1, 2>>, <<2, 3>> >>, !.ligs = << <<2, 1, 3>>, <<1, 2, 3>> >>],
          [Base("cff", n) EXCEPT !.gsub = "sl", !.subs = << <<1, 2>> >>] }
 
 PairU(n) == { <<a, b, 10 * a + b + 1>> : a \in 1..(n - 1), b \in 1..(n - 1) }
@@ -131,7 +133,7 @@ FamM(n) ==
 
 \* The families are instantiated in small MC modules (SubsetMC.tla, or generated by checks/C10.py):
 \* TLC evaluates every zero-arity constant definition at start-up, so they must not all live here.
-FamQ(n) == FamT(n, 3, 1) \cup FamL(n, {"ttf"}, {2}) \cup FamP(n) \cup FamC(n) \cup FamD(n) \cup FamE(n) \cup FamM(n)
+FamQ(n) == FamT(n, 3, 1) \cup FamL(n, {"ttf"}, {3}) \cup FamP(n) \cup FamC(n) \cup FamD(n) \cup FamE(n) \cup FamM(n)
 
 (***************************************************************************)
 (* The subsetter.                                                           *)
